@@ -396,11 +396,25 @@ class Engine:
             for t in s.targets:
                 self.assign(t, v, env)
         elif isinstance(s, ast.AugAssign):
-            cur = self.eval(ast.Name(id=s.target.id, ctx=ast.Load()), env) if isinstance(s.target, ast.Name) else None
-            if cur is None and not isinstance(s.target, ast.Name):
+            if isinstance(s.target, ast.Attribute):
+                o = self.eval(s.target.value, env)
+                if not isinstance(o, SObj) or s.target.attr not in o.attrs:
+                    raise Untranslatable("augmented assignment to an attribute of a non-stub object")
+                o.attrs[s.target.attr] = self.binop(s.op, o.attrs[s.target.attr], self.eval(s.value, env))
+                return
+            if not isinstance(s.target, ast.Name):
                 raise Untranslatable("augmented assignment to non-name")
+            cur = self.eval(ast.Name(id=s.target.id, ctx=ast.Load()), env)
             v = self.binop(s.op, cur, self.eval(s.value, env))
             env[s.target.id] = v
+        elif isinstance(s, ast.With):
+            for item in s.items:
+                cm = self.eval(item.context_expr, env)
+                if not (hasattr(cm, "acquire") and hasattr(cm, "release")):
+                    raise Untranslatable("with-statement on something that is not a lock")
+                if item.optional_vars is not None:
+                    raise Untranslatable("with ... as")
+            self.exec_block(s.body, env)      # sequential semantics: a lock is a no-op
         elif isinstance(s, ast.Return):
             raise _Return(self.eval(s.value, env) if s.value is not None else None)
         elif isinstance(s, ast.If):
@@ -495,6 +509,11 @@ class Engine:
     def assign(self, target, v, env):
         if isinstance(target, ast.Name):
             env[target.id] = v
+        elif isinstance(target, ast.Attribute):
+            o = self.eval(target.value, env)
+            if not isinstance(o, SObj):
+                raise Untranslatable("assignment to an attribute of a non-stub object")
+            o.attrs[target.attr] = v
         elif isinstance(target, (ast.Tuple, ast.List)):
             items = self.iterate(v)
             if len(items) != len(target.elts):
@@ -1114,6 +1133,28 @@ class Engine:
                 return self.str_eq(SStr(cs[:len(p)]), SStr((p,)))
             if name == "encode" and not args:
                 return ("__bytes__", s)
+            if name == "format" and s.is_concrete() and not kwargs:
+                import string as _string
+                segs: List[Any] = []
+                auto = 0
+                for lit, field, spec, conv in _string.Formatter().parse(s.concrete()):
+                    if lit:
+                        segs.append(lit)
+                    if field is None:
+                        continue
+                    if conv is not None:
+                        raise Untranslatable("conversion in format field")
+                    if field == "":
+                        k = auto
+                        auto += 1
+                    elif field.isdigit():
+                        k = int(field)
+                    else:
+                        raise Untranslatable("named/attribute format field")
+                    if k >= len(args):
+                        raise PyRaise(IndexError)
+                    segs.extend(self.format_value(args[k], spec or "").segs)
+                return SStr(segs)
             if name == "join":
                 (seq,) = args
                 if isinstance(seq, _LazySeq):
